@@ -544,7 +544,7 @@ pub trait IdmServerTransaction<'a> {
         if let Ok(uat) = jws_inner.from_json::<UserAuthToken>() {
             if let Some(exp) = uat.expiry {
                 let ct_odt = time::OffsetDateTime::UNIX_EPOCH + ct;
-                if exp < ct_odt {
+                if exp <= ct_odt {
                     security_info!(?ct_odt, ?exp, "Session expired");
                     return Err(OperationError::SessionExpired);
                 } else {
